@@ -26,7 +26,8 @@ META = {
             "thread sending on the initiating side, or keepalives enabled): every order in which the environment can "
             "deliver the packets of the two directions. Between KEXINIT and NEWKEYS a side sends only message "
             "types 1-4, 7 and 20-49; the exchange completes within 35 virtual seconds; both sides stay active; M is "
-            "delivered/answered afterwards.",
+            "delivered/answered afterwards - once: a further complete exchange on the then idle connection (all "
+            "scenarios without timers) must not make either side emit any connection-layer message.",
     "note": "system runs to quiescence between deliveries (event mode); one in-flight message per scenario (two in "
             "thorough); virtual time",
     "design_ref": "4/C11",
@@ -84,8 +85,12 @@ def emit(t, ch, kind):
         raise ValueError(kind)
 
 
-def make_body(scn):
+def make_body(scn, second=None, want_raw=False):
+    """second: run one more complete exchange after the first has settled (default: whenever no timers are
+    involved) - nothing that was queued for the first exchange may be emitted again by a later one."""
     initiator, msgs, user_send, keepalive = scn
+    if second is None:
+        second = not keepalive
 
     def body(s):
         p = F.Pair().up()
@@ -179,6 +184,39 @@ def make_body(scn):
                "active": (ti.is_active(), tp.is_active()), "order": tuple(order),
                "tx_i": [t for t, _ in ti.packetizer.sent[n_i0:]], "tx_p": [t for t, _ in tp.packetizer.sent[n_p0:]],
                "exc_i": repr(ti.get_exception()), "exc_p": repr(tp.get_exception()), "elapsed": S.now() - S.EPOCH}
+        if second and obs["rekey"] == "ok" and all(obs["active"]):
+            # a further exchange on the settled connection (ungated wire): nothing is in flight, nobody sends
+            n_i1, n_p1 = len(ti.packetizer.sent), len(tp.packetizer.sent)
+            p.c2s.gated = p.s2c.gated = False
+            p.c2s.deliver_all()
+            p.s2c.deliver_all()
+            res2 = {}
+
+            def rekey2():
+                try:
+                    ti.renegotiate_keys()
+                    res2["rekey"] = "ok"
+                except Exception as e:  # noqa
+                    res2["rekey"] = "raised %s: %s" % (type(e).__name__, str(e)[:80])
+            th2 = vthreading.Thread(target=rekey2)
+            t0 = S.now()
+            th2.start()
+            s.quiesce()
+            while th2.is_alive() and S.now() - t0 < 40:
+                s.advance(1.0)
+                s.quiesce()
+            s.advance(0.5)
+            s.quiesce()
+            obs["rekey2"] = res2.get("rekey", "never-returned")
+            obs["tx_i2"] = [t for t, _ in ti.packetizer.sent[n_i1:]]
+            obs["tx_p2"] = [t for t, _ in tp.packetizer.sent[n_p1:]]
+            obs["active"] = (ti.is_active(), tp.is_active())
+            obs["exc_i"], obs["exc_p"] = repr(ti.get_exception()), repr(tp.get_exception())
+        if want_raw:
+            obs["raw_i"] = list(ti.packetizer.sent[n_i0:])
+            obs["raw_p"] = list(tp.packetizer.sent[n_p0:])
+            obs["chan_i"], obs["chan_p"] = chi.chanid, chp.chanid
+            obs["released"] = (ti._channels.get(chi.chanid) is None, tp._channels.get(chp.chanid) is None)
         # effects
         import socket
         chi.settimeout(0.0)
@@ -250,6 +288,13 @@ def judge(scn, obs):
             # not the reply to any in-flight request names the scenario instead
             out.append(("connection-message-sent-during-kex:%s-sends-%s" % (side, F.mname(t)),
                         "reply-to-in-flight-request" if cause else what))
+    if "rekey2" in obs:
+        for side, tx in (("initiator", obs["tx_i2"]), ("peer", obs["tx_p2"])):
+            for t in sorted({t for t in tx if t not in ALLOWED_IN_KEX}):
+                # the connection was idle: any connection-layer message now is a leftover of the first exchange
+                out.append(("message-emitted-again-by-a-later-exchange:%s-sends-%s" % (side, F.mname(t)), what))
+        if obs["rekey2"] != "ok" and obs["rekey"] == "ok":
+            out.append(("next-re-exchange-fails-or-session-dies", what))
     if obs["rekey"] != "ok" or not all(obs["active"]):
         # attribute to the in-flight message(s) that require a reply from the transport thread (one finding
         # per such kind, so that single- and multi-message scenarios share keys)
